@@ -428,12 +428,12 @@ impl<'a> Page<'a> {
 // ================================================================== page updates
 //@trusted v_copy_within: `buf.copy_within(src..src + len, dst)` is memmove of len bytes from src to dst inside the page buffer (std panics unless both ranges lie inside the buffer: precondition)
 #[verifier::external_body]
-pub fn v_copy_within(buf: &mut [u8; PAGE_SIZE], src: usize, len: usize, dst: usize)
-    requires src + len <= 8192, dst + len <= 8192
+pub fn v_copy_within(buf: &mut [u8; PAGE_SIZE], src: usize, src_end: usize, dst: usize)
+    requires src <= src_end <= 8192, dst + (src_end - src) <= 8192
     ensures final(buf)@.len() == 8192,
-        final(buf)@.subrange(dst as int, dst + len) == old(buf)@.subrange(src as int, src + len),
-        forall|j: int| 0 <= j < 8192 && !(dst <= j < dst + len) ==> #[trigger] final(buf)@[j] == old(buf)@[j],
-{ buf.copy_within(src..src + len, dst) }
+        final(buf)@.subrange(dst as int, dst + (src_end - src)) == old(buf)@.subrange(src as int, src_end as int),
+        forall|j: int| 0 <= j < 8192 && !(dst <= j < dst + (src_end - src)) ==> #[trigger] final(buf)@[j] == old(buf)@[j],
+{ buf.copy_within(src..src_end, dst) }
 //@trusted v_arr_range_mut: `&mut page[a..b]` is the mutable sub-slice: what is written through it lands at a..b of the page and nothing else changes (std panics unless a <= b <= 8192: precondition)
 #[verifier::external_body]
 pub fn v_arr_range_mut(page: &mut [u8; PAGE_SIZE], a: usize, b: usize) -> (r: &mut [u8])
@@ -476,7 +476,7 @@ impl<'a> Page<'a> {
 //@|     r is Ok ==> ({ let h = pg_hdr(old(self).b()); let c = pg_count(old(self).b());
 //@|         final(self).b().subrange(h + 2 * idx + 2, h + 2 * c + 2) == old(self).b().subrange(h + 2 * idx, h + 2 * c)
 //@|         && forall|j: int| 0 <= j < 8192 && !(h + 2 * idx + 2 <= j < h + 2 * c + 2) ==> #[trigger] final(self).b()[j] == old(self).b()[j] }),
-//@prewrite "self.buf.copy_within(src..src + len, src + 2);" => "v_copy_within(self.buf, src, len, src + 2);"
+//@preregex "self\.buf\.copy_within\(([^;]*?)\.\.([^;]*?),\s*([^;]*?)\);" => "v_copy_within(self.buf, \1, \2, \3);"
 //@end
 //@extract nervusdb-storage/src/index/btree.rs Page::shift_slots_left ret r
 //@| requires pg_kind_ok(old(self).b()), pg_hdr(old(self).b()) + 2 * pg_count(old(self).b()) <= 8192,
@@ -485,7 +485,7 @@ impl<'a> Page<'a> {
 //@|     r is Ok ==> ({ let h = pg_hdr(old(self).b()); let c = pg_count(old(self).b());
 //@|         final(self).b().subrange(h + 2 * idx, h + 2 * c - 2) == old(self).b().subrange(h + 2 * idx + 2, h + 2 * c)
 //@|         && forall|j: int| 0 <= j < 8192 && !(h + 2 * idx <= j < h + 2 * c - 2) ==> #[trigger] final(self).b()[j] == old(self).b()[j] }),
-//@prewrite "self.buf.copy_within(src..src + len, dst);" => "v_copy_within(self.buf, src, len, dst);"
+//@preregex "self\.buf\.copy_within\(([^;]*?)\.\.([^;]*?),\s*([^;]*?)\);" => "v_copy_within(self.buf, \1, \2, \3);"
 //@end
 }
 
@@ -559,7 +559,7 @@ impl<'a> Page<'a> {
 //@| ensures r is Ok <==> idx < pg_count(old(self).b()),
 //@|     r is Err ==> final(self).b() == old(self).b(),
 //@|     r is Ok ==> leaf_wf(final(self).b()) && leaf_cells(final(self).b()) == leaf_cells(old(self).b()).remove(idx as int),
-//@proof after 1 "self.shift_slots_left(idx)?;" raw
+//@proof after 1 "self.shift_slots_left(" raw
 //@| let ghost b1 = self.b();
 //@proof before 1 "=Ok(())"
 //@| lemma_delete_view(old(self).b(), b1, self.b(), idx as int);
@@ -653,7 +653,7 @@ impl<'a> Page<'a> {
 //@prewrite "&mut self.buf[cell_off..cell_off + var_len]" => "v_arr_range_mut(self.buf, cell_off, cell_off + var_len)"
 //@prewrite "self.buf[key_start..key_start + key.len()].copy_from_slice(key);" => "v_copy_from_slice(v_arr_range_mut(self.buf, key_start, key_start + key.len()), key);"
 //@prewrite "debug_assert_eq!(wrote, var_len);" => "assert(wrote == var_len);"
-//@proof after 1 "self.set_cell_content_begin(new_begin);" raw
+//@proof after 1 "self.set_cell_content_begin(" raw
 //@| let ghost s1 = self.b();
 //@proof before 1 "let key_start = cell_off + var_len;" raw
 //@| let ghost s2 = self.b();
@@ -662,22 +662,22 @@ impl<'a> Page<'a> {
 //@|     assert(s2.subrange(cell_off as int, cell_off + var_len) =~= venc(key_len));
 //@|     assert forall|j: int| 0 <= j < 8192 && !(cell_off <= j < cell_off + var_len) implies #[trigger] s2[j] == s1[j] by {}
 //@| }
-//@proof before 1 "write_u64_le(self.buf, key_start + key.len(), payload);" raw
+//@proof before 1 "write_u64_le(self.buf," raw
 //@| let ghost s3 = self.b();
 //@| proof {
 //@|     assert(s3.subrange(key_start as int, key_start + key@.len()) =~= key@);
 //@|     assert forall|j: int| 0 <= j < 8192 && !(key_start <= j < key_start + key@.len()) implies #[trigger] s3[j] == s2[j] by {}
 //@| }
-//@proof before 1 "self.shift_slots_right(idx)?;" raw
+//@proof before 1 "self.shift_slots_right(" raw
 //@| let ghost s4 = self.b();
 //@| proof {
 //@|     assert(pg_kind_ok(s4)) by { assert(s4.subrange(0, 4) =~= old(self).b().subrange(0, 4)); }
 //@|     assert(pg_count(s4) == count) by { assert(s4.subrange(6, 8) =~= old(self).b().subrange(6, 8)); }
 //@| }
-//@proof before 1 "self.slot_set(idx, cell_off)?;" raw
+//@proof before 1 "self.slot_set(" raw
 //@| let ghost s5 = self.b();
 //@| proof { assert(pg_kind_ok(s5)) by { assert(s5.subrange(0, 4) =~= old(self).b().subrange(0, 4)); } }
-//@proof before 1 "self.set_cell_count(count + 1);" raw
+//@proof before 1 "self.set_cell_count(" raw
 //@| let ghost s6 = self.b();
 //@proof before 1 "=Ok(())"
 //@| let b0 = old(self).b(); let b = self.b(); let bg = pg_begin(b0);
@@ -702,6 +702,65 @@ impl<'a> Page<'a> {
 //@| lemma_insert_view(b0, b, idx as int, key@, payload);
 //@end
 }
+
+//@trusted v_fill: `buf.fill(x)` sets every byte of the page buffer to x (std)
+#[verifier::external_body]
+pub fn v_fill(buf: &mut [u8; PAGE_SIZE], x: u8)
+    ensures final(buf)@.len() == 8192, forall|j: int| 0 <= j < 8192 ==> #[trigger] final(buf)@[j] == x
+{ buf.fill(x) }
+
+impl<'a> Page<'a> {
+// C26.page.init_leaf.spec — a fresh leaf is well formed, empty, and has no right sibling.
+//@extract nervusdb-storage/src/index/btree.rs Page::init_leaf
+//@| ensures leaf_wf(final(self).b()), pg_count(final(self).b()) == 0, leaf_cells(final(self).b()) =~= Seq::<(Seq<u8>, u64)>::empty(),
+//@|     from_le64(final(self).b().subrange(16, 24)) == 0,
+//@prewrite "self.buf.fill(0);" => "v_fill(self.buf, 0);"
+//@prewrite "self.buf[OFF_MAGIC..OFF_MAGIC + 4].copy_from_slice(&MAGIC);" => "v_slice_write(self.buf, OFF_MAGIC, &MAGIC);"
+//@proof before 1 "=}"
+//@| let b = self.b();
+//@| lemma_le16_len(0u16); lemma_le16_len(8192u16); lemma_le64_len(0u64);
+//@| assert(b.subrange(0, 4) =~= magic4());
+//@end
+}
+
+// ================================================================== leaf-level laws over the abstract view
+/// C26.leaf.insert_keeps_key_order — inserting at the position `leaf_lower_bound` returns keeps the keys
+/// in order and puts the new entry in front of every entry with an equal key, so that the lower bound of
+/// that key is the new entry: a lookup returns the most recently inserted payload (within one leaf).
+pub proof fn lemma_insert_at_lower_bound(cells: Seq<(Seq<u8>, u64)>, r: int, key: Seq<u8>, payload: u64)
+    requires keys_sorted(cells), 0 <= r <= cells.len(),
+        forall|i: int| 0 <= i < r ==> lex_lt(#[trigger] cells[i].0, key),
+        forall|i: int| r <= i < cells.len() ==> lex_le(key, #[trigger] cells[i].0),
+    ensures keys_sorted(cells.insert(r, (key, payload))),
+        cells.insert(r, (key, payload))[r] == (key, payload),
+        forall|i: int| 0 <= i < r ==> lex_lt(#[trigger] cells.insert(r, (key, payload))[i].0, key),
+        forall|i: int| r <= i < cells.len() + 1 ==> lex_le(key, #[trigger] cells.insert(r, (key, payload))[i].0),
+{
+    let c2 = cells.insert(r, (key, payload));
+    lemma_lex_irrefl(key);
+    assert forall|i: int, j: int| 0 <= i < j < c2.len() implies lex_le(#[trigger] c2[i].0, #[trigger] c2[j].0) by {
+        if j < r { assert(lex_le(cells[i].0, cells[j].0)); }
+        else if j == r { lemma_lex_total(cells[i].0, key); }
+        else if i < r { lemma_lex_trans(cells[i].0, key, cells[j - 1].0); lemma_lex_total(cells[i].0, cells[j - 1].0); }
+        else if i == r { }
+        else { assert(lex_le(cells[i - 1].0, cells[j - 1].0)); }
+    }
+}
+/// C26.leaf.delete_keeps_key_order — removing an entry keeps the others in order.
+pub proof fn lemma_remove_keeps_sorted(cells: Seq<(Seq<u8>, u64)>, idx: int)
+    requires keys_sorted(cells), 0 <= idx < cells.len(),
+    ensures keys_sorted(cells.remove(idx)),
+{
+    let c2 = cells.remove(idx);
+    assert forall|i: int, j: int| 0 <= i < j < c2.len() implies lex_le(#[trigger] c2[i].0, #[trigger] c2[j].0) by {
+        let i0 = if i < idx { i } else { i + 1 }; let j0 = if j < idx { j } else { j + 1 };
+        assert(lex_le(cells[i0].0, cells[j0].0));
+    }
+}
+
+//@canary|pub proof fn canary_leaf_wf(b: Seq<u8>) requires leaf_wf(b), pg_count(b) == 3, keys_sorted(leaf_cells(b)), leaf_cells(b)[0].0 == leaf_cells(b)[1].0 ensures false {}
+//@canary|pub proof fn canary_internal_wf(b: Seq<u8>) requires internal_wf(b), pg_count(b) == 2, seps_sorted(int_seps(b)) ensures false {}
+//@canary|pub proof fn canary_insert_fits(b: Seq<u8>, k: Seq<u8>) requires leaf_wf(b), pg_count(b) == 1, k.len() == 300, 24 + 2 * pg_count(b) + 2 + vlen(k.len() as u32) + k.len() + 8 <= pg_begin(b) ensures false {}
 
 } // verus!
 fn main() {}
